@@ -409,9 +409,12 @@ impl Check for C08 {
         "E2 exhaustive lattice: monomial basis x degree x ratio x variant x chunking on the real resamplers"
     }
     fn n_items(&self, tier: Tier) -> usize {
-        items(tier).len()
+        items(tier).len() + 1
     }
     fn run_item(&self, tier: Tier, idx: usize, journal: Option<&JournalFile>) -> Result<Value, String> {
+        if idx == items(tier).len() {
+            return crate::wide::c08_item();
+        }
         let item = items(tier).into_iter().nth(idx).ok_or("no item")?;
         let mut acc = Acc { evals: 0, nontrivial: 0, found: vec![], outcomes: Default::default(), worst_exact: 0.0, sharp: vec![], worst_tone: 0.0, worst_saw: 0.0, worst_saw_rel: 0.0 };
         let chunks: Vec<usize> = if tier == Tier::Quick { vec![1, 5, 32, 257] } else { CHUNKS.to_vec() };
